@@ -25,6 +25,7 @@ type EstOpts struct {
 	Window  uint16  // window field of the peer's SYN / SYN-ACK (unscaled)
 	RcvBuf  int     // stack-side receive buffer (0 = default)
 	SndBuf  int
+	AckData []byte // passive only: payload carried by the handshake-completing ACK (the caller sends it again)
 }
 
 // Conn is an established connection between the stack and the scripted peer.
@@ -174,7 +175,7 @@ func (p *Peer) Establish(o EstOpts) (*Conn, string) {
 		return nil, "no SYN-ACK emitted"
 	}
 	parse(*sa)
-	p.Send(rfc.TCP{SrcPort: o.PPort, DstPort: o.LPort, Seq: o.PeerISS + 1, Ack: c.ISS + 1, Flags: rfc.ACK, Window: o.Window, RawOpts: c.tsOpt()})
+	p.Send(rfc.TCP{SrcPort: o.PPort, DstPort: o.LPort, Seq: o.PeerISS + 1, Ack: c.ISS + 1, Flags: rfc.ACK, Window: o.Window, RawOpts: c.tsOpt(), Payload: o.AckData})
 	p.TakeFor(o.LPort, o.PPort)
 	ne, nwq, e := ep.Accept()
 	if e != nil {
